@@ -2,7 +2,8 @@
 
   c18.code   {"world": [cls…], "val": V, "var": "obj"}
              → {"ok": {"text": source, "outcome": "equal|unequal|exc:<T>|unmodelled",
-                        "hyps": {"wf","dom","clean","imports"}, "imports": [[module, name]…]}}
+                        "hyps": {"wf","dom","setfree","imports"}, "imports": [[module, name]…]}}
+  c18.json   {"s": "..."}  → {"ok": json.dumps(s, ensure_ascii=False)}
   c18.dq     {"s": "..."}  → {"ok": decoded} | {"err": "unmodelled"}   (body of a "…" literal)
   c18.pyeq   {"world": [], "a": V, "b": V} → {"ok": bool}
 -/
@@ -50,11 +51,12 @@ partial def getVal (j : Json) : Except String Val := do
       | none => .error "float without num"
   | "str" => pure (.str (← getStr j "v") (← getStr j "repr"))
   | "bytes" => pure (.bytes (← getRef j) (← getStr j "repr"))
-  | "qname" => pure (.qname (← getStr j "text") (← getStr j "repr"))
+  | "qname" => pure (.qname (← getStr j "text"))
   | "opaque" => pure (.opaque (← getRef j) (← strList j "callee") (← getStr j "args") (← getNum j))
   | "enum" => pure (.enum (← getRef j) (← getStr j "member"))
   | "list" => pure (.list (← (← getArr j "items").mapM getVal))
   | "tuple" => pure (.tuple (← (← getArr j "items").mapM getVal))
+  | "set" => pure (.set (← getBool j "frozen") (← (← getArr j "items").mapM getVal))
   | "dict" => do
       let items ← getArr j "items"
       let ps ← items.mapM fun p => do
@@ -101,22 +103,28 @@ def run (op : String) (a : Json) : Option (Except String Json) :=
       let W ← getWorld a
       let v ← getVal (a.getObjValD "val")
       let var ← getStr a "var"
-      -- "patched": true evaluates the model of the serializer with the three proposed repairs
-      let cfg := match a.getObjValD "patched" with
-        | .bool true => Cfg.patched
-        | _ => Cfg.asIs
       pure <| ok (jObj [
-        ("text", jStr (sourceC cfg W v var)),
-        ("outcome", jStr (outcomeC cfg W v)),
-        -- the hypotheses of Props.C18.code_rt_cfg on this input
-        ("hyps", jObj [("wf", jBool (wf W v)), ("dom", jBool (domOK W v)), ("clean", jBool (clean cfg v)),
-                       ("imports", jBool (importsOKC cfg W v))]),
+        ("text", jStr (source W v var)),
+        ("outcome", jStr (outcome W v)),
+        -- the hypotheses of Props.C18.code_rt_partial on this input
+        ("hyps", jObj [("wf", jBool (wf W v)), ("dom", jBool (domOK W v)), ("setfree", jBool (setFree v)),
+                       ("imports", jBool (importsOK W v))]),
         ("imports", jList (fun p => Json.arr #[jStr p.1, jStr p.2]) (importsEnv W v))])
   | "c18.dq" => some do
       let s ← getStr a "s"
-      pure <| match decodeDq false s with
+      pure <| match decodeDq .normal s with
         | some t => ok (jStr t)
         | none => err "unmodelled"
+  | "c18.json" => some do
+      let s ← getStr a "s"
+      pure <| ok (jStr (jsonDumps s))
+  | "c18.qnamelit" => some do
+      let s ← getStr a "s"
+      let e := PyExpr.qnameCall s
+      pure <| ok (jObj [("text", jStr (e.text 0)),
+        ("back", match decodeDq .normal (jsonBody s) with
+          | some t => jStr t
+          | none => Json.str "EXC:unmodelled")])
   | "c18.pyeq" => some do
       let x ← getVal (a.getObjValD "a")
       let y ← getVal (a.getObjValD "b")
